@@ -796,8 +796,8 @@ pub fn run(ctx: &Ctx, rep: &mut Report) {
     let e64 = f64::EPSILON;
     for c in ctx.case_ids("trace", 320, 160_000) {
         let mut g = ctx.rng("trace", c);
-        if c % 16 == 11 {
-            if (c / 16) % 4 == 3 {
+        if c % (if ctx.thorough { 48 } else { 16 }) == 11 {
+            if (c / 48) % 4 == 3 {
                 deep_trace_case::<f32, B32>(ctx, rep, c, &mut g, "NdArray<f32>", e32);
             } else {
                 deep_trace_case::<f64, B64>(ctx, rep, c, &mut g, "NdArray<f64>", e64);
